@@ -65,6 +65,7 @@ type FuncSpec struct {
 	NoWrap     bool // C: unsigned + and * must not wrap around either (obligations `nowrap`)
 	NoBody     bool // C contract used at call sites only (body is BLST / not translated)
 	Tags       string // extra build tags of the configuration in which the body is verified
+	Unfold     []string // chunk functions whose byte-level definition is available in the body proof
 }
 
 type Pred struct {
@@ -208,6 +209,10 @@ func (db *SpecDB) LoadFile(path string, pkg string) error {
 						cur.Params = append(cur.Params, ws[i])
 					}
 				default:
+					if strings.HasPrefix(ws[i], "unfold=") {
+						cur.Unfold = append(cur.Unfold, strings.Split(strings.TrimPrefix(ws[i], "unfold="), ",")...)
+						continue
+					}
 					fail("unknown option %q", ws[i])
 				}
 			}
